@@ -4,7 +4,7 @@ use crate::interp;
 use crate::prog::Prog;
 use serde_json::{json, Value};
 use shuttle::{Config, FailurePersistence, MaxSteps, Runner};
-use shuttle_schedulers::{RandomScheduler, ReplayScheduler};
+use shuttle_schedulers::{DfsScheduler, RandomScheduler, ReplayScheduler};
 use std::panic;
 use std::sync::Arc;
 
@@ -35,7 +35,22 @@ fn one_run(k: usize, r: &Value) -> Value {
     let cfg = cfg_for(&p, &persist, dir.as_deref());
     let prog = Arc::new(p);
     eprintln!("@@RUN {k} BEGIN");
-    let res = if let Some(s) = r["replay"].as_str() {
+    let res = if let Some(members) = r["portfolio"].as_array() {
+        // "finder" explores every schedule (and so finds the failing one), "blind" only the first one (which passes)
+        let mut pf = shuttle::PortfolioRunner::new(r["stop_on_first"].as_bool().unwrap_or(true), cfg);
+        for m in members {
+            if m.as_str() == Some("finder") {
+                pf.add(DfsScheduler::new(None, false));
+            } else {
+                pf.add(DfsScheduler::new(Some(1), false));
+            }
+        }
+        let pr = Arc::clone(&prog);
+        panic::catch_unwind(panic::AssertUnwindSafe(|| {
+            pf.run(move || interp::run_main(Arc::clone(&pr)));
+            0usize
+        }))
+    } else if let Some(s) = r["replay"].as_str() {
         let sched = ReplayScheduler::new_from_encoded(s);
         let runner = Runner::new(sched, cfg);
         let pr = Arc::clone(&prog);
